@@ -114,6 +114,15 @@ class C06(Prop):
             prefix = prefix + [nxt]
         ilegal = ["call:setup", "call:step", "call:step", "call:finalize", "call:report"]
         out.append({"kind": "ctx", "start": 0, "stop": 2, "step": 1, "ops": ilegal, "interactive": True})
+        # every method, `run` and every direct request from every resting state of an INTERACTIVE context
+        iprefix = []
+        for nxt in ilegal:
+            for m in METHODS:
+                out.append({"kind": "ctx", "start": 0, "stop": 2, "step": 1, "interactive": True,
+                            "ops": iprefix + ["call:" + m] + ilegal[len(iprefix):]})
+            out.append({"kind": "ctx", "start": 0, "stop": 2, "step": 1, "interactive": True,
+                        "ops": iprefix + ["set:" + s for s in ENGINE_STATES[:3] + ENGINE_STATES[5:8]] + ["run"] + ilegal[len(iprefix):]})
+            iprefix = iprefix + [nxt]
         out.append({"kind": "ctx", "start": 0, "stop": 3, "step": 1, "interactive": True,
                     "ops": ["call:step", "call:setup", "call:initialize_simulants", "call:setup", "run", "run", "call:finalize", "call:step", "call:report"]})
         out.append({"kind": "lc", "phases": [["e", [], True], ["a", ["x"], True], ["b", [], False], ["c", ["y", "z"], False]],
